@@ -663,8 +663,8 @@ Variable ck_hash : N.
 Variable genesis : xrow.
 Hypothesis bsz_pos : (0 < bsz)%nat.
 
+Let start_old := startup_old hashf bsz ck_height ck_hash genesis.
 Let start := startup hashf bsz ck_height ck_hash genesis.
-Let start_fixed := startup_fixed hashf bsz ck_height ck_hash genesis.
 
 Lemma run_import_good : forall f rows,
   import hashf f = Ok rows ->
@@ -693,12 +693,12 @@ Qed.
 
 (* a file that imports to [rows] with distinct hashes, at least one row and the checkpoint hash at the
    checkpoint height starts the service on exactly those rows, all on the longest chain *)
-Theorem startup_accepts : forall f rows r,
+Theorem startup_accepts_old : forall f rows r,
   import hashf f = Ok rows -> NoDup (map x_hash rows) ->
   0 <= ck_height -> nth_error rows (Z.to_nat ck_height) = Some r -> x_hash r = ck_hash ->
-  start true [] (Some f) = (true, map mk rows).
+  start_old true [] (Some f) = (true, map mk rows).
 Proof.
-  intros f rows r Hi Hnd Hck0 Hnth Hhash. unfold start, startup.
+  intros f rows r Hi Hnd Hck0 Hnth Hhash. unfold start_old, startup_old.
   rewrite (run_import_good f rows Hi).
   rewrite (db_insert_all_nodup rows [] Hnd) by (intros; reflexivity). simpl app.
   pose proof (import_heights f rows Hi) as Hh.
@@ -713,12 +713,12 @@ Proof.
   rewrite Hhash. now rewrite N.eqb_refl.
 Qed.
 
-Theorem roundtrip_startup : forall rows r,
+Theorem roundtrip_startup_old : forall rows r,
   chain_ok hashf rows -> Forall fields_ok rows -> NoDup (map x_hash rows) ->
   0 <= ck_height -> nth_error rows (Z.to_nat ck_height) = Some r -> x_hash r = ck_hash ->
-  start true [] (Some (export rows)) = (true, map mk rows).
+  start_old true [] (Some (export rows)) = (true, map mk rows).
 Proof.
-  intros rows r Hch Hf Hnd H0 Hn Hh. eapply startup_accepts; eauto. now apply roundtrip.
+  intros rows r Hch Hf Hnd H0 Hn Hh. eapply startup_accepts_old; eauto. now apply roundtrip.
 Qed.
 
 (* --- refusals --- *)
@@ -735,46 +735,46 @@ Proof.
   - rewrite (IH _ Hrest). reflexivity.
 Qed.
 
-Theorem refuses_unimportable : forall f, import hashf f = Err -> fst (start true [] (Some f)) = false.
+Theorem refuses_unimportable_old : forall f, import hashf f = Err -> fst (start_old true [] (Some f)) = false.
 Proof.
-  intros f H. unfold start, startup. pose proof (run_import_bad f H) as Hb.
+  intros f H. unfold start_old, startup_old. pose proof (run_import_bad f H) as Hb.
   destruct (run_import hashf bsz [] (Some f)) as [res t']. simpl in Hb. subst res. reflexivity.
 Qed.
 
-Theorem refuses_malformed_row : forall hdr recs,
+Theorem refuses_malformed_row_old : forall hdr recs,
   Exists (fun rec => good_record (List.length hdr) rec = false) recs ->
-  fst (start true [] (Some (hdr :: recs))) = false.
+  fst (start_old true [] (Some (hdr :: recs))) = false.
 Proof.
-  intros hdr recs H. apply refuses_unimportable. simpl.
+  intros hdr recs H. apply refuses_unimportable_old. simpl.
   now rewrite (import_recs_bad_record _ recs ist0 H).
 Qed.
 
-Theorem refuses_missing_file : start true [] None = (false, []) /\ start true [] (Some []) = (false, []).
+Theorem refuses_missing_file_old : start_old true [] None = (false, []) /\ start_old true [] (Some []) = (false, []).
 Proof. split; reflexivity. Qed.
 
-Theorem refuses_no_rows : forall f, import hashf f = Ok [] -> fst (start true [] (Some f)) = false.
+Theorem refuses_no_rows_old : forall f, import hashf f = Ok [] -> fst (start_old true [] (Some f)) = false.
 Proof.
-  intros f H. unfold start, startup. rewrite (run_import_good f [] H). reflexivity.
+  intros f H. unfold start_old, startup_old. rewrite (run_import_good f [] H). reflexivity.
 Qed.
 
 (* the count check: some row was dropped by ON CONFLICT DO NOTHING *)
-Theorem refuses_wrong_count : forall f rows,
+Theorem refuses_wrong_count_old : forall f rows,
   import hashf f = Ok rows -> List.length (db_insert_all [] rows) <> List.length rows ->
-  fst (start true [] (Some f)) = false.
+  fst (start_old true [] (Some f)) = false.
 Proof.
-  intros f rows H Hlen. unfold start, startup. rewrite (run_import_good f rows H). unfold validate. simpl.
+  intros f rows H Hlen. unfold start_old, startup_old. rewrite (run_import_good f rows H). unfold validate. simpl.
   assert (E : (Z.of_nat (List.length (db_insert_all [] rows)) =? Z.of_nat (List.length rows)) = false)
     by (apply Z.eqb_neq; lia).
   rewrite E. reflexivity.
 Qed.
 
 (* the checkpoint check: no block at the checkpoint height, or a different hash there *)
-Theorem refuses_checkpoint : forall f rows,
+Theorem refuses_checkpoint_old : forall f rows,
   import hashf f = Ok rows ->
   ~ (exists r, 0 <= ck_height /\ nth_error rows (Z.to_nat ck_height) = Some r /\ x_hash r = ck_hash) ->
-  fst (start true [] (Some f)) = false.
+  fst (start_old true [] (Some f)) = false.
 Proof.
-  intros f rows H Hno. unfold start, startup. rewrite (run_import_good f rows H). unfold validate. simpl fst.
+  intros f rows H Hno. unfold start_old, startup_old. rewrite (run_import_good f rows H). unfold validate. simpl fst.
   destruct (Z.of_nat (List.length (db_insert_all [] rows)) =? Z.of_nat (List.length rows)) eqn:Ec; [|reflexivity].
   apply Z.eqb_eq in Ec. apply Nat2Z.inj in Ec.
   rewrite (db_insert_all_full rows [] Ec) in *. simpl app.
@@ -789,8 +789,8 @@ Proof.
 Qed.
 
 (* whatever is accepted on an empty database is a table that matches the file *)
-Theorem accepted_is_import : forall f t,
-  start true [] f = (true, t) ->
+Theorem accepted_is_import_old : forall f t,
+  start_old true [] f = (true, t) ->
   exists f' rows, f = Some f' /\ import hashf f' = Ok rows /\ t = map mk rows /\ rows <> [] /\
     exists r, 0 <= ck_height /\ nth_error rows (Z.to_nat ck_height) = Some r /\ x_hash r = ck_hash.
 Proof.
@@ -800,77 +800,42 @@ Proof.
     destruct (List.length (db_insert_all [] rows) =? List.length rows)%nat eqn:El.
     + apply Nat.eqb_eq in El. pose proof (db_insert_all_full rows [] El) as Hfull. simpl in Hfull.
       assert (Ht : t = map mk rows).
-      { unfold start, startup in H. rewrite (run_import_good f' rows Hi), Hfull in H. now inversion H. }
+      { unfold start_old, startup_old in H. rewrite (run_import_good f' rows Hi), Hfull in H. now inversion H. }
       split; [exact Ht|].
       assert (Hne : rows <> []).
-      { intros ->. pose proof (refuses_no_rows f' Hi) as Hr. rewrite H in Hr. discriminate. }
+      { intros ->. pose proof (refuses_no_rows_old f' Hi) as Hr. rewrite H in Hr. discriminate. }
       split; [exact Hne|].
       destruct (Z_lt_le_dec ck_height 0) as [Hneg|Hpos].
-      * exfalso. assert (Hr : fst (start true [] (Some f')) = false).
-        { apply (refuses_checkpoint f' rows Hi). intros [r (Hc & _)]. lia. }
+      * exfalso. assert (Hr : fst (start_old true [] (Some f')) = false).
+        { apply (refuses_checkpoint_old f' rows Hi). intros [r (Hc & _)]. lia. }
         rewrite H in Hr. discriminate.
       * destruct (nth_error rows (Z.to_nat ck_height)) as [r|] eqn:En.
         -- destruct (N.eq_dec (x_hash r) ck_hash) as [Eh|Eh]; [exists r; auto|].
-           exfalso. assert (Hr : fst (start true [] (Some f')) = false).
-           { apply (refuses_checkpoint f' rows Hi). intros [r' (_ & Hn' & Hh')]. congruence. }
+           exfalso. assert (Hr : fst (start_old true [] (Some f')) = false).
+           { apply (refuses_checkpoint_old f' rows Hi). intros [r' (_ & Hn' & Hh')]. congruence. }
            rewrite H in Hr. discriminate.
-        -- exfalso. assert (Hr : fst (start true [] (Some f')) = false).
-           { apply (refuses_checkpoint f' rows Hi). intros [r' (_ & Hn' & _)]. congruence. }
+        -- exfalso. assert (Hr : fst (start_old true [] (Some f')) = false).
+           { apply (refuses_checkpoint_old f' rows Hi). intros [r' (_ & Hn' & _)]. congruence. }
            rewrite H in Hr. discriminate.
-    + apply Nat.eqb_neq in El. pose proof (refuses_wrong_count f' rows Hi El) as Hr.
+    + apply Nat.eqb_neq in El. pose proof (refuses_wrong_count_old f' rows Hi El) as Hr.
       rewrite H in Hr. discriminate.
-  - pose proof (refuses_unimportable f' Hi) as Hr. rewrite H in Hr. discriminate.
-Qed.
-
-(* --- the defect in general: the complete batches in front of the first bad record stay, and
-       the next start serves them whatever file it is given --- *)
-
-Lemma db_insert_all_nonempty : forall rows t, t <> [] -> db_insert_all t rows <> [].
-Proof.
-  induction rows as [|r rows IH]; intros t Ht; [exact Ht|].
-  rewrite db_insert_all_cons. apply IH. unfold db_insert.
-  destruct (has_hash t (x_hash (fst (mk r)))); [exact Ht|]. destruct t; discriminate.
-Qed.
-
-Theorem leftovers_served : forall hdr g bad rest rows st1,
-  import_recs hashf (List.length hdr) g ist0 = Ok (rows, st1) -> bad_at (List.length hdr) st1 bad ->
-  let left := db_insert_all [] (firstn (List.length rows / bsz * bsz) rows) in
-  start true [] (Some (hdr :: g ++ bad :: rest)) = (false, left) /\
-  ((bsz <= List.length rows)%nat -> left <> [] /\ forall f2, start true left f2 = (true, left)).
-Proof.
-  intros hdr g bad rest rows st1 H Hbad left. split.
-  - unfold start, startup, run_import.
-    rewrite (import_loop_leftovers (List.length hdr) bsz _ g bad rest ist0 [] rows st1 bsz_pos H Hbad
-               (Nat.lt_succ_diag_r _)).
-    reflexivity.
-  - intros Hle.
-    assert (Hne : left <> []).
-    { unfold left.
-      assert (Hk : (bsz <= List.length rows / bsz * bsz)%nat).
-      { assert (1 <= List.length rows / bsz)%nat by (apply Nat.div_le_lower_bound; lia). nia. }
-      destruct rows as [|r rows]; [simpl in Hle; lia|].
-      destruct (List.length (r :: rows) / bsz * bsz)%nat as [|k]; [lia|].
-      cbn [firstn]. rewrite db_insert_all_cons. apply db_insert_all_nonempty.
-      unfold db_insert. simpl. discriminate. }
-    split; [exact Hne|]. intros f2. unfold start, startup. destruct left; [congruence|reflexivity].
+  - pose proof (refuses_unimportable_old f' Hi) as Hr. rewrite H in Hr. discriminate.
 Qed.
 
 (* --- a database that already holds headers is never overwritten by an import --- *)
 
-Theorem nonempty_untouched : forall t f, t <> [] -> start true t f = (true, t).
+Theorem nonempty_untouched_old : forall t f, t <> [] -> start_old true t f = (true, t).
 Proof. intros t f Hne. destruct t; [congruence|reflexivity]. Qed.
 
-Theorem nonempty_untouched_fixed : forall t f, t <> [] -> start_fixed true t f = (true, t).
-Proof. intros t f Hne. destruct t; [congruence|reflexivity]. Qed.
+(* --- the start-up of the code as it is (a refused import removes what it inserted), related to the
+       old one: same verdict, same table whenever the start succeeds, nothing left otherwise --- *)
 
-(* --- the repaired start-up --- *)
-
-Lemma startup_fixed_agrees : forall p t f,
-  fst (start_fixed p t f) = fst (start p t f) /\
-  (fst (start p t f) = true -> start_fixed p t f = start p t f) /\
-  (fst (start p t f) = false -> p = true -> t = [] -> snd (start_fixed p t f) = []).
+Lemma startup_agrees : forall p t f,
+  fst (start p t f) = fst (start_old p t f) /\
+  (fst (start_old p t f) = true -> start p t f = start_old p t f) /\
+  (fst (start_old p t f) = false -> p = true -> t = [] -> snd (start p t f) = []).
 Proof.
-  intros p t f. unfold start, start_fixed, startup, startup_fixed.
+  intros p t f. unfold start_old, start, startup_old, startup.
   destruct p; [|repeat split; intros; discriminate].
   destruct t; [|repeat split; intros; discriminate].
   destruct (run_import hashf bsz [] f) as [[count|] t']; simpl.
@@ -878,45 +843,90 @@ Proof.
   - repeat split; intros; try discriminate; reflexivity.
 Qed.
 
-Theorem second_start_fixed : second_start_sound start_fixed.
+Lemma start_ok_iff : forall p t f t', start p t f = (true, t') <-> start_old p t f = (true, t').
 Proof.
-  intros f1 t1 H1 f2 t2 H2.
-  assert (Ht1 : t1 = []).
-  { unfold start_fixed, startup_fixed in H1.
-    destruct (run_import hashf bsz [] f1) as [[count|] t'].
-    - destruct (validate count t' ck_height ck_hash); inversion H1; reflexivity.
-    - inversion H1; reflexivity. }
-  subst t1. exact H2.
+  intros p t f t'. destruct (startup_agrees p t f) as (H1 & H2 & _). split; intros H.
+  - assert (Ho : fst (start_old p t f) = true) by (rewrite <- H1, H; reflexivity).
+    rewrite <- (H2 Ho). exact H.
+  - assert (Ho : fst (start_old p t f) = true) by (rewrite H; reflexivity).
+    rewrite (H2 Ho). exact H.
 Qed.
 
-Theorem roundtrip_startup_fixed : forall rows r,
+Lemma refused_nothing_left : forall f, fst (start_old true [] f) = false -> start true [] f = (false, []).
+Proof.
+  intros f H. destruct (startup_agrees true [] f) as (H1 & _ & H3).
+  rewrite H in H1. specialize (H3 H eq_refl eq_refl).
+  destruct (start true [] f) as [b t]. simpl in *. now subst.
+Qed.
+
+Theorem startup_accepts : forall f rows r,
+  import hashf f = Ok rows -> NoDup (map x_hash rows) ->
+  0 <= ck_height -> nth_error rows (Z.to_nat ck_height) = Some r -> x_hash r = ck_hash ->
+  start true [] (Some f) = (true, map mk rows).
+Proof. intros. apply start_ok_iff. eapply startup_accepts_old; eauto. Qed.
+
+Theorem roundtrip_startup : forall rows r,
   chain_ok hashf rows -> Forall fields_ok rows -> NoDup (map x_hash rows) ->
   0 <= ck_height -> nth_error rows (Z.to_nat ck_height) = Some r -> x_hash r = ck_hash ->
-  start_fixed true [] (Some (export rows)) = (true, map mk rows).
+  start true [] (Some (export rows)) = (true, map mk rows).
+Proof. intros. apply start_ok_iff. eapply roundtrip_startup_old; eauto. Qed.
+
+Theorem refuses_unimportable : forall f, import hashf f = Err -> start true [] (Some f) = (false, []).
+Proof. intros f H. apply refused_nothing_left, refuses_unimportable_old, H. Qed.
+
+Theorem refuses_malformed_row : forall hdr recs,
+  Exists (fun rec => good_record (List.length hdr) rec = false) recs ->
+  start true [] (Some (hdr :: recs)) = (false, []).
+Proof. intros hdr recs H. apply refused_nothing_left, refuses_malformed_row_old, H. Qed.
+
+Theorem refuses_missing_file : start true [] None = (false, []) /\ start true [] (Some []) = (false, []).
+Proof. split; reflexivity. Qed.
+
+Theorem refuses_no_rows : forall f, import hashf f = Ok [] -> start true [] (Some f) = (false, []).
+Proof. intros f H. apply refused_nothing_left, refuses_no_rows_old, H. Qed.
+
+Theorem refuses_wrong_count : forall f rows,
+  import hashf f = Ok rows -> List.length (db_insert_all [] rows) <> List.length rows ->
+  start true [] (Some f) = (false, []).
+Proof. intros f rows H Hl. apply refused_nothing_left. eapply refuses_wrong_count_old; eauto. Qed.
+
+Theorem refuses_checkpoint : forall f rows,
+  import hashf f = Ok rows ->
+  ~ (exists r, 0 <= ck_height /\ nth_error rows (Z.to_nat ck_height) = Some r /\ x_hash r = ck_hash) ->
+  start true [] (Some f) = (false, []).
+Proof. intros f rows H Hn. apply refused_nothing_left. eapply refuses_checkpoint_old; eauto. Qed.
+
+Theorem accepted_is_import : forall f t,
+  start true [] f = (true, t) ->
+  exists f' rows, f = Some f' /\ import hashf f' = Ok rows /\ t = map mk rows /\ rows <> [] /\
+    exists r, 0 <= ck_height /\ nth_error rows (Z.to_nat ck_height) = Some r /\ x_hash r = ck_hash.
+Proof. intros f t H. apply accepted_is_import_old. apply start_ok_iff. exact H. Qed.
+
+Theorem nonempty_untouched : forall t f, t <> [] -> start true t f = (true, t).
+Proof. intros t f Hne. destruct t; [congruence|reflexivity]. Qed.
+
+(* a refused import leaves nothing behind ... *)
+Theorem refused_leaves_nothing : forall f t, start true [] f = (false, t) -> t = [].
 Proof.
-  intros rows r Hch Hf Hnd H0 Hn Hh.
-  pose proof (roundtrip_startup rows r Hch Hf Hnd H0 Hn Hh) as H.
-  destruct (startup_fixed_agrees true [] (Some (export rows))) as (_ & Hag & _).
-  rewrite Hag; [exact H|]. now rewrite H.
+  intros f t H. unfold start, startup in H.
+  destruct (run_import hashf bsz [] f) as [[count|] t'].
+  - destruct (validate count t' ck_height ck_hash); inversion H; reflexivity.
+  - inversion H; reflexivity.
 Qed.
 
-Theorem refuses_fixed : forall f, fst (start true [] f) = false -> start_fixed true [] f = (false, []).
-Proof.
-  intros f H. destruct (startup_fixed_agrees true [] f) as (H1 & _ & H3).
-  rewrite H in H1. specialize (H3 H eq_refl eq_refl).
-  destruct (start_fixed true [] f) as [b t]. simpl in *. now subst.
-Qed.
+(* ... so a later start on the same database neither skips the import nor the validation: it behaves
+   exactly as a start on a fresh database with the file it is given *)
+Theorem second_start_revalidates : forall f1 t1, start true [] f1 = (false, t1) ->
+  forall f2, start true t1 f2 = start true [] f2.
+Proof. intros f1 t1 H f2. now rewrite (refused_leaves_nothing f1 t1 H). Qed.
 
-Theorem fixed_same_otherwise : forall p t f,
-  fst (start_fixed p t f) = fst (start p t f) /\
-  (fst (start p t f) = true -> start_fixed p t f = start p t f).
-Proof. intros p t f. destruct (startup_fixed_agrees p t f) as (H1 & H2 & _). split; assumption. Qed.
+Theorem second_start : second_start_sound start.
+Proof.
+  intros f1 t1 H1 f2 t2 H2. rewrite (second_start_revalidates f1 t1 H1) in H2. exact H2.
+Qed.
 
 End Startup.
 End WithHash.
-
-(* ------------------------------------------------------------------------------------------ *)
-(* the second-start defect of the code as it is                                                *)
 
 Definition demo_hash (s : src) : N := (s_prev s * 1000 + Z.to_N (s_nonce s) + 1)%N.
 Definition demo_genesis : xrow :=
@@ -925,63 +935,7 @@ Definition demo_genesis : xrow :=
 Definition demo_rec (nonce : string) : record :=
   ["1"; "aa"; nonce; "545259519"; "1231006505"]%string.
 
-(* batches of 2; rows 1 and 2 are committed, row 3 is malformed *)
-Definition demo_bad_file : file :=
-  [header_line; demo_rec "7"; demo_rec "8"; demo_rec "x"; demo_rec "9"]%string.
-
-Definition demo_left : table :=
-  Eval vm_compute in snd (startup demo_hash 2 0 8%N demo_genesis true [] (Some demo_bad_file)).
-
-Lemma demo_first_start :
-  startup demo_hash 2 0 8%N demo_genesis true [] (Some demo_bad_file) = (false, demo_left).
-Proof. vm_compute. reflexivity. Qed.
-
-Lemma demo_second_start :
-  startup demo_hash 2 0 8%N demo_genesis true demo_left (Some demo_bad_file) = (true, demo_left).
-Proof. vm_compute. reflexivity. Qed.
-
-(* the first batch (2 rows) is what stays behind *)
-Lemma demo_left_rows : map (fun p => x_height (fst p)) demo_left = [0; 1].
-Proof. vm_compute. reflexivity. Qed.
-
-Theorem second_start_refuted_batch :
-  ~ second_start_sound (startup demo_hash 2 0 8%N demo_genesis).
-Proof.
-  unfold second_start_sound. intros H.
-  pose proof (H _ _ demo_first_start _ _ demo_second_start) as H3.
-  rewrite demo_first_start in H3. discriminate H3.
-Qed.
-
-(* with the real batch size: a well-formed file whose block at the checkpoint height has another
-   hash is refused, but every row of it stays and is served by the next start *)
 Definition demo_good_file : file := [header_line; demo_rec "7"; demo_rec "8"]%string.
-
-Definition demo_left_all : table :=
-  Eval vm_compute in snd (startup demo_hash 500 1 4242%N demo_genesis true [] (Some demo_good_file)).
-
-Lemma demo_first_start_v :
-  startup demo_hash 500 1 4242%N demo_genesis true [] (Some demo_good_file) = (false, demo_left_all).
-Proof. vm_compute. reflexivity. Qed.
-
-Lemma demo_second_start_v :
-  startup demo_hash 500 1 4242%N demo_genesis true demo_left_all (Some demo_good_file) = (true, demo_left_all).
-Proof. vm_compute. reflexivity. Qed.
-
-Theorem second_start_refuted_validation :
-  ~ second_start_sound (startup demo_hash 500 1 4242%N demo_genesis).
-Proof.
-  unfold second_start_sound. intros H.
-  pose proof (H _ _ demo_first_start_v _ _ demo_second_start_v) as H3.
-  rewrite demo_first_start_v in H3. discriminate H3.
-Qed.
-
-Theorem second_start_refuted :
-  ~ (forall hashf bsz ckh ckhash g, (0 < bsz)%nat -> second_start_sound (startup hashf bsz ckh ckhash g)).
-Proof. intros H. apply second_start_refuted_batch. apply H. lia. Qed.
-
-Theorem second_start_refuted_500 :
-  ~ (forall hashf ckh ckhash g, second_start_sound (startup hashf 500 ckh ckhash g)).
-Proof. intros H. apply second_start_refuted_validation. apply H. Qed.
 
 (* ------------------------------------------------------------------------------------------ *)
 (* the hypotheses are satisfiable: a concrete chain with extreme field values                  *)
@@ -1018,7 +972,7 @@ Proof. vm_compute. reflexivity. Qed.
 
 (* the count check needs a hash collision: with a constant hash function the second row is dropped *)
 Example demo_wrong_count :
-  fst (startup (fun _ => 8%N) 2 0 8%N demo_genesis true [] (Some demo_good_file)) = false.
+  startup (fun _ => 8%N) 2 0 8%N demo_genesis true [] (Some demo_good_file) = (false, []).
 Proof. vm_compute. reflexivity. Qed.
 
 Example demo_refused_forms :
